@@ -96,7 +96,9 @@ static SPECS: &[Spec] = &[
     Spec { name: "syrc", tag: tag(b"syrc"), fam: Fam::Syriac, sub: Sub::None,
         // alaph, superscript alaph(36), pthaha above(230) dotted(230), pthaha below(220) zqapha below(220),
         // fatha(30) fathatan(27) superscript alef(35)
-        alpha: &[0x710, 0x711, 0x730, 0x732, 0x731, 0x734, 0x64E, 0x64B, 0x670, 0x1D165, ZWJ, ZWNJ] },
+        // + shadda(33), hamza above (230, an Arabic modifier combining mark) and hamza below (220): Garshuni-style runs -
+        // under the syrc tag they are sorted like any other mark (the shadda / MCM exceptions belong to the arab tag)
+        alpha: &[0x710, 0x711, 0x730, 0x732, 0x731, 0x734, 0x64E, 0x64B, 0x670, 0x1D165, ZWJ, ZWNJ, 0x651, 0x654, 0x655] },
     Spec { name: "arab", tag: tag(b"arab"), fam: Fam::Arabic, sub: Sub::None,
         // beh, shadda(33), fatha(30) kasra(32) damma(31), hamza above (MCM 230), hamza below (MCM 220),
         // madda above (230), subscript alef (220), Mende number mark U+1E8D0 (220, non-BMP), small high seen (MCM 230)
@@ -148,7 +150,8 @@ static SPECS: &[Spec] = &[
         alpha: &[0xC15, 0xC12, 0xC55, 0xC4C, 0xC3F, 0xC46, 0xC4A, 0xC48, 0xC56, 0xC4D, 0xC3C, ZWJ, 0x1D165] },
     Spec { name: "knda", tag: tag(b"knda"), fam: Fam::Indic, sub: Sub::Kannada,
         // RA HALANT ZWJ, the five split matras (one three-part), a prohibited pair, nukta
-        alpha: &[0xCB0, 0xCCD, ZWJ, 0xCC0, 0xCC7, 0xCC8, 0xCCA, 0xCCB, 0xC89, 0xCBE, 0xCBC, 0x1D165, ZWNJ] },
+        // + Telugu RA and virama, Devanagari RA: the swap is for the Kannada triple U+0CB0 U+0CCD U+200D only
+        alpha: &[0xCB0, 0xCCD, ZWJ, 0xCC0, 0xCC7, 0xCC8, 0xCCA, 0xCCB, 0xC89, 0xCBE, 0xCBC, 0x1D165, ZWNJ, 0xC30, 0xC4D, 0x930] },
     Spec { name: "mlym", tag: tag(b"mlym"), fam: Fam::Indic, sub: Sub::None,
         // all five prohibited pairs, three split matras, virama(9) + vertical bar virama(9)
         alpha: &[0xD07, 0xD09, 0xD57, 0xD0E, 0xD46, 0xD12, 0xD3E, 0xD4A, 0xD4B, 0xD4C, 0xD4D, ZWJ, 0x1D165, 0xD3B] },
